@@ -1,7 +1,9 @@
 //! Bounded stand-in for C22 (catalog): every sequence of up to LEN inserts/removes over a small
 //! universe of names and classes on the real `HashMapTreeCatalog`, compared after every step with
 //! a reference map (written from the property text): exact lookup, longest-suffix lookup,
-//! iteration, and the values returned by insert/remove.
+//! iteration, and the values returned by insert/remove.  Exact and longest-suffix lookup are asked for
+//! every name of the universe and for QUERY_ONLY names that are never inserted (they leave the tree
+//! below an entry, below an entry-less intermediate node, and at the class root).
 use quandary::class::Class;
 use quandary::db::catalog::{Catalog, Entry};
 use quandary::db::{HashMapTreeCatalog, HashMapTreeZone};
@@ -9,6 +11,8 @@ use quandary::name::Name;
 use vq_bounded::{done, fail};
 
 const NAMES: [&str; 6] = [".", "a.", "b.a.", "c.b.a.", "x.", "B.A."];
+/// Never inserted, only looked up: they diverge below b.a., below a., below c.b.a. (one and two labels), at the root.
+const QUERY_ONLY: [&str; 5] = ["z.b.a.", "z.a.", "y.c.b.a.", "z.", "Z.y.C.b.a."];
 const LEN: usize = 4;
 
 type Cat = HashMapTreeCatalog<HashMapTreeZone, u32>;
@@ -53,6 +57,9 @@ fn main() {
     let classes = [Class::IN, Class::CH];
     let names: Vec<Box<Name>> = NAMES.iter().map(|n| n.parse().unwrap()).collect();
     let labels: Vec<Vec<String>> = NAMES.iter().map(|n| labels_lower(n)).collect();
+    let qtexts: Vec<&str> = NAMES.iter().chain(QUERY_ONLY.iter()).copied().collect();
+    let qnames: Vec<Box<Name>> = qtexts.iter().map(|n| n.parse().unwrap()).collect();
+    let qlabels: Vec<Vec<String>> = qtexts.iter().map(|n| labels_lower(n)).collect();
     let n_ops = 2 * NAMES.len() * classes.len();
     let mut cases = 0u64;
     let mut seq = vec![0usize; LEN];
@@ -80,14 +87,14 @@ fn main() {
                     let want = model.remove(ci, &labels[ni]);
                     if got != want { fail("remove returned the wrong entry", &trace, &got, &want); }
                 }
-                for (qi, q) in names.iter().enumerate() {
+                for (qi, q) in qnames.iter().enumerate() {
                     for (cj, c) in classes.iter().enumerate() {
                         let got = cat.get(q, *c).map(id_of);
-                        let want = model.get(cj, &labels[qi]);
-                        if got != want { fail(&format!("get({}, {:?}) after the history", NAMES[qi], c), &trace, &got, &want); }
+                        let want = model.get(cj, &qlabels[qi]);
+                        if got != want { fail(&format!("get({}, {:?}) after the history", qtexts[qi], c), &trace, &got, &want); }
                         let got = cat.lookup(q, *c).map(id_of);
-                        let want = model.lookup(cj, &labels[qi]);
-                        if got != want { fail(&format!("lookup({}, {:?}) after the history", NAMES[qi], c), &trace, &got, &want); }
+                        let want = model.lookup(cj, &qlabels[qi]);
+                        if got != want { fail(&format!("lookup({}, {:?}) after the history", qtexts[qi], c), &trace, &got, &want); }
                     }
                 }
                 let mut got: Vec<u32> = cat.iter().map(id_of).collect(); got.sort();
@@ -99,7 +106,7 @@ fn main() {
         // next sequence
         let mut k = 0;
         loop {
-            if k == LEN { done(cases, "all insert/remove sequences of length <= 4 over 6 names x 2 classes"); }
+            if k == LEN { done(cases, "all insert/remove sequences of length <= 4 over 6 names x 2 classes; get/lookup/iter after every step, get and lookup for the 6 names + 5 never-inserted names (z.b.a. z.a. y.c.b.a. z. Z.y.C.b.a.) x 2 classes"); }
             seq[k] += 1;
             if seq[k] < n_ops { break; }
             seq[k] = 0; k += 1;
